@@ -163,7 +163,7 @@ def r16_3(ctx):
         ctx.functions.add(q)
 
 
-def r16_2(ctx):
+def r16_2(ctx, observers=('__iter__', 'length', 'merged_track', 'save', '__repr__'), floor=5):
     """Observers are pure."""
     ai = smf.make_interp(ctx)
     from .. import strdom
@@ -171,7 +171,7 @@ def r16_2(ctx):
     cls = ctx.p.cls(MF, 'MidiFile')
     ai.summaries['print'] = lambda i, a, k, n: None
     n = 0
-    for obs in ('__iter__', 'length', 'merged_track', 'save', '__repr__'):
+    for obs in observers:
         o, fn = ctx.p.lookup_method(cls, obs)
         if fn is None:
             continue
@@ -198,7 +198,7 @@ def r16_2(ctx):
         same = mf.attrs == a0 and [list(t.items) for t in mf.attrs['tracks'].items] == t0 and \
             [dict(m.attrs) for t in mf.attrs['tracks'].items for m in t.items] == m0 and not mf.stores
         ctx.require(same, 'R16.2', f'{obs}.pure', ctx.where(fn), f'{obs} modifies the file, a track or a message', construct=f'{fn.qname}::modifies-contents')
-    ctx.floor('R16.2', n, 5)
+    ctx.floor('R16.2', n, floor)
 
 
 def r16_6(ctx):
